@@ -1,1 +1,852 @@
-"""(rules to be added)"""
+"""Engine CTRL - control-variable protocol at the synthesis sites (DESIGN 5.4).
+
+The gadgets (assignment blocks, unified head, exiting latch, exit branch) are
+born in two functions; the rules read them through def-use chains."""
+from __future__ import annotations
+
+import ast
+from typing import Dict, List, Optional, Set, Tuple
+
+from .. import astutil as A
+from ..model import AnalysisError, FunctionInfo
+from ..report import Ob, bad, ok, unresolved
+from . import rule
+from .common import kw, method_calls, prog_is_sub
+from .store import _assign_parts
+
+
+def _helper(ctx) -> FunctionInfo:
+    f = ctx.prog.find_function("loop_restructure_helper")
+    if f is None:
+        raise AnalysisError("loop_restructure_helper not found")
+    return f
+
+
+def _ibcb(ctx) -> FunctionInfo:
+    f = ctx.prog.cls("SCFG").find_method("insert_block_and_control_blocks")
+    if f is None:
+        raise AnalysisError("SCFG.insert_block_and_control_blocks not found")
+    return f
+
+
+def _ctors(ctx, fn: FunctionInfo, base: str) -> List[Tuple[ast.Call, str]]:
+    """constructor calls in fn of classes derived from `base` -> (call, class name)"""
+    is_sub = prog_is_sub(ctx.prog)
+    out = []
+    for c in A.walk_no_nested(fn.node):
+        if isinstance(c, ast.Call):
+            d = (A.dotted(c.func) or "").split(".")[-1]
+            if d in ctx.prog.classes and is_sub(d, base):
+                out.append((c, d))
+    return out
+
+
+def _defs_values(ctx, fn, use: ast.AST, name: str) -> List[Tuple[object, ast.AST]]:
+    """[(cfg node, value expr)] for the reaching definitions of name at use"""
+    cfg = ctx.cfg(fn)
+    out = []
+    for d in cfg.reaching_defs(use, name):
+        if d.stmt is None:
+            out.append((d, None))
+            continue
+        ap = _assign_parts(d.stmt)
+        out.append((d, ap[1] if ap else None))
+    return out
+
+
+def _guard_conditions(fn_node: ast.AST, node: ast.AST) -> List[Tuple[str, bool]]:
+    """[(test text, polarity)] of the if-statements enclosing node"""
+    out = []
+    child = node
+    for anc in A.ancestors(node):
+        if isinstance(anc, ast.If):
+            if child in anc.body:
+                out.append((A.unparse(anc.test), True))
+            elif child in anc.orelse:
+                out.append((A.unparse(anc.test), False))
+        if anc is fn_node:
+            break
+        child = anc
+    return out
+
+
+# ---------------------------------------------------------- symbolic elements
+
+
+def _elements(ctx, fn, e: ast.AST, use: ast.AST, assume: Dict[str, bool], depth: int = 0):
+    """abstract multiset of the *elements* (values for a table) of a sequence / table
+    expression: frozenset of texts; ('all', seqtext) stands for every element of
+    an opaque sequence; ('subset', seqtext) for some elements of it."""
+    if depth > 6:
+        return None
+    if isinstance(e, (ast.Tuple, ast.List)):
+        out = set()
+        for x in e.elts:
+            v = _scalar(ctx, fn, x, use, assume)
+            if v is None:
+                return None
+            out.add(v)
+        return frozenset(out)
+    if isinstance(e, ast.Call) and isinstance(e.func, ast.Name) and e.func.id in ("tuple", "list", "enumerate", "dict") and e.args:
+        return _elements(ctx, fn, e.args[0], use, assume, depth + 1)
+    if isinstance(e, ast.DictComp) and len(e.generators) == 1:
+        g = e.generators[0]
+        # {i: j for i, j in enumerate(SEQ)}
+        if isinstance(g.iter, ast.Call) and isinstance(g.iter.func, ast.Name) and g.iter.func.id == "enumerate" and isinstance(g.target, ast.Tuple) and len(g.target.elts) == 2:
+            if A.unparse(e.value) == A.unparse(g.target.elts[1]) and A.unparse(e.key) == A.unparse(g.target.elts[0]) and not g.ifs:
+                return _elements(ctx, fn, g.iter.args[0], use, assume, depth + 1)
+        return None
+    if isinstance(e, ast.IfExp):
+        t = A.unparse(e.test)
+        if t in assume:
+            return _elements(ctx, fn, e.body if assume[t] else e.orelse, use, assume, depth + 1)
+        return None
+    if isinstance(e, ast.Subscript) and isinstance(e.slice, ast.Slice):
+        inner = _elements(ctx, fn, e.value, use, assume, depth + 1)
+        if inner is None:
+            return None
+        return frozenset({("subset", A.unparse(e))})
+    if isinstance(e, ast.Dict):
+        out = set()
+        for v in e.values:
+            s = _scalar(ctx, fn, v, use, assume)
+            if s is None:
+                return None
+            out.add(s)
+        return frozenset(out)
+    if isinstance(e, ast.Name):
+        defs = _defs_values(ctx, fn, use, e.id)
+        real = [(d, v) for d, v in defs if d.stmt is not None]
+        if not real:
+            return frozenset({("all", e.id)})  # parameter: opaque sequence
+        outs = []
+        for d, v in real:
+            # only definitions compatible with the assumption
+            conds = _guard_conditions(fn.node, d.stmt)
+            if any(t in assume and assume[t] != pol for t, pol in conds):
+                continue
+            if v is None:
+                return None
+            if isinstance(v, ast.Call) and not (isinstance(v.func, ast.Name) and v.func.id in ("tuple", "list", "enumerate", "dict")):
+                outs.append(frozenset({("all", e.id)}))
+                continue
+            if isinstance(d.stmt, ast.Assign) and isinstance(d.stmt.targets[0], ast.Tuple):
+                outs.append(frozenset({("all", e.id)}))
+                continue
+            r = _elements(ctx, fn, v, d.stmt, assume, depth + 1)
+            if r is None:
+                return None
+            outs.append(r)
+        if not outs:
+            return None
+        if len(set(outs)) == 1:
+            return outs[0]
+        return None
+    if isinstance(e, ast.Attribute):
+        return frozenset({("all", A.unparse(e))})
+    return None
+
+
+def _scalar(ctx, fn, e: ast.AST, use: ast.AST, assume: Dict[str, bool]) -> Optional[str]:
+    """canonical text of a scalar name-valued expression under the assumption"""
+    if isinstance(e, ast.IfExp):
+        t = A.unparse(e.test)
+        if t in assume:
+            return _scalar(ctx, fn, e.body if assume[t] else e.orelse, use, assume)
+        return None
+    return A.unparse(e)
+
+
+def _atoms(e: ast.AST) -> Set[str]:
+    out = set()
+    for n in ast.walk(e):
+        if isinstance(n, ast.IfExp):
+            out.add(A.unparse(n.test))
+    return out
+
+
+def _assumptions(ctx, fn, exprs: List[ast.AST], use: ast.AST) -> List[Dict[str, bool]]:
+    atoms: Set[str] = set()
+    for e in exprs:
+        atoms |= _atoms(e)
+        for n in ast.walk(e):
+            if isinstance(n, ast.Name):
+                for d, v in _defs_values(ctx, fn, use, n.id):
+                    if d.stmt is not None:
+                        for t, _p in _guard_conditions(fn.node, d.stmt):
+                            atoms.add(t)
+                        if v is not None:
+                            atoms |= _atoms(v)
+    atoms = sorted(atoms)[:4]
+    outs = [{}]
+    for a in atoms:
+        outs = [dict(o, **{a: b}) for o in outs for b in (True, False)]
+    return outs
+
+
+@rule("CTRL-1", 3, "where a branching block is built its value table names exactly its successors, and it has a control variable")
+def ctrl1(ctx) -> List[Ob]:
+    out: List[Ob] = []
+    for fn in (_helper(ctx), _ibcb(ctx)):
+        for c, cname in _ctors(ctx, fn, "SyntheticBranch"):
+            key = f"{cname}(...)"
+            where = ctx.where(fn, c)
+            var, tbl, jts = kw(c, "variable"), kw(c, "branch_value_table"), kw(c, "_jump_targets")
+            if var is None or tbl is None or jts is None:
+                out.append(bad("CTRL-1", fn.qualname, key, where, f"{cname} built without variable= / branch_value_table= / _jump_targets="))
+                continue
+            if isinstance(var, ast.Constant):
+                out.append(bad("CTRL-1", fn.qualname, key, where, f"{cname} built with a constant control variable {A.unparse(var)}"))
+                continue
+            # a table filled by subscript stores in a loop: values drawn from `X & successors`
+            filled = None
+            if isinstance(tbl, ast.Name):
+                defs = [v for _d, v in _defs_values(ctx, fn, c, tbl.id)]
+                if defs and all(isinstance(v, ast.Dict) and not v.keys for v in defs):
+                    stores = [s for s in A.walk_no_nested(fn.node) if isinstance(s, ast.Assign) and any(isinstance(t, ast.Subscript) and A.unparse(t.value) == tbl.id for t in s.targets)]
+                    filled = stores
+            if filled is not None:
+                jt_el = _elements(ctx, fn, jts, c, {})
+                good = bool(filled)
+                why = []
+                for s in filled:
+                    v = s.value
+                    src = None
+                    if isinstance(v, ast.Name):
+                        for d, dv in _defs_values(ctx, fn, s, v.id):
+                            if d.kind == "for":
+                                src = A.unparse(d.stmt.iter)
+                    if src is None or jt_el is None or not all(isinstance(x, tuple) and x[0] == "all" and x[1] in src for x in jt_el):
+                        good = False
+                        why.append(f"{A.unparse(s)} stores a value not drawn from the successors ({src})")
+                    else:
+                        why.append(f"values drawn from {src} (a subset of {sorted(x[1] for x in jt_el)})")
+                if good:
+                    out.append(ok("CTRL-1", fn.qualname, key, where, f"{cname}: every table value is drawn from the successor sequence; coverage of all successors is CTRL-8's matching-pair obligation", why))
+                else:
+                    out.append(bad("CTRL-1", fn.qualname, key, where, f"{cname}: the value table can name a block that is not a successor", why))
+                continue
+            problems = []
+            n_cases = 0
+            for assume in _assumptions(ctx, fn, [tbl, jts], c):
+                te = _elements(ctx, fn, tbl, c, assume)
+                je = _elements(ctx, fn, jts, c, assume)
+                if te is None and je is None:
+                    continue  # infeasible combination of definitions
+                n_cases += 1
+                if te is None or je is None:
+                    problems.append(("unresolved", f"under {assume}: cannot evaluate {'table' if te is None else 'targets'}"))
+                elif te != je:
+                    problems.append(("violation", f"under {assume or 'all conditions'}: table values {sorted(map(str, te))} != successors {sorted(map(str, je))}"))
+            viol = [p for k, p in problems if k == "violation"]
+            unres = [p for k, p in problems if k == "unresolved"]
+            if viol:
+                out.append(bad("CTRL-1", fn.qualname, key, where, f"{cname}: value table and successors disagree: {viol[0]}", viol))
+            elif unres or n_cases == 0:
+                out.append(unresolved("CTRL-1", fn.qualname, key, where, f"{cname}: {unres[0] if unres else 'no evaluable case'}"))
+            else:
+                out.append(ok("CTRL-1", fn.qualname, key, where, f"{cname}: table values == successors in all {n_cases} condition case(s)"))
+    return out
+
+
+# ------------------------------------------------------------------ gadget model
+
+
+class Gadget:
+    """what loop_restructure_helper builds, read from its constructor sites"""
+
+    def __init__(self, ctx) -> None:
+        self.ctx = ctx
+        self.fn = fn = _helper(ctx)
+        br = _ctors(ctx, fn, "SyntheticBranch")
+        self.latch = next((c for c, n in br if n == "SyntheticExitingLatch"), None)
+        self.exitb = next((c for c, n in br if n == "SyntheticExitBranch"), None)
+        if self.latch is None or self.exitb is None:
+            raise AnalysisError("latch / exit branch constructor not found in loop_restructure_helper")
+        self.assigns = [c for c, n in _ctors(ctx, fn, "SyntheticAssignment")]
+        self.latch_var = A.unparse(kw(self.latch, "variable"))
+        self.latch_tbl = A.unparse(kw(self.latch, "branch_value_table"))
+        self.latch_name = A.unparse(kw(self.latch, "name"))
+        self.exit_var = A.unparse(kw(self.exitb, "variable"))
+        self.exit_tbl = A.unparse(kw(self.exitb, "branch_value_table"))
+        self.exit_name = A.unparse(kw(self.exitb, "name"))
+        be = kw(self.latch, "backedges")
+        jt = kw(self.latch, "_jump_targets")
+        self.latch_back = A.unparse(be.elts[0]) if isinstance(be, ast.Tuple) and len(be.elts) == 1 else None
+        self.latch_targets = [A.unparse(x) for x in jt.elts] if isinstance(jt, ast.Tuple) else []
+        self.latch_exit = next((t for t in self.latch_targets if t != self.latch_back), None)
+        # condition under which the exit branch exists
+        conds = _guard_conditions(fn.node, self.exitb)
+        self.exit_cond = conds[0][0] if conds and conds[0][1] else None
+        # looked-up head: names defined from `<x>.variable` / `<x>.branch_value_table`
+        self.head_vars: Set[str] = set()
+        self.head_tbls: Set[str] = set()
+        self.head_cond: Optional[str] = None
+        for s in A.walk_no_nested(fn.node):
+            ap = _assign_parts(s)
+            if ap and isinstance(ap[1], ast.Attribute) and isinstance(ap[0][0], ast.Name):
+                if ap[1].attr == "variable":
+                    self.head_vars.add(ap[0][0].id)
+                    g = _guard_conditions(fn.node, s)
+                    if g and g[0][1]:
+                        self.head_cond = g[0][0]
+                if ap[1].attr == "branch_value_table":
+                    self.head_tbls.add(ap[0][0].id)
+
+    def stores_for(self, actor: ast.Call) -> List[Tuple[ast.Assign, str, ast.AST]]:
+        """stores `variable_assignment[V] = e` feeding the assignment block built by actor"""
+        va = kw(actor, "variable_assignment")
+        if not isinstance(va, ast.Name):
+            return []
+        cfg = self.ctx.cfg(self.fn)
+        an = cfg.node_of(actor)
+        out = []
+        dnodes = [d for d in cfg.reaching_defs(actor, va.id) if d.stmt is not None]
+        for s in A.walk_no_nested(self.fn.node):
+            if isinstance(s, ast.Assign) and len(s.targets) == 1 and isinstance(s.targets[0], ast.Subscript) and A.unparse(s.targets[0].value) == va.id:
+                sn = cfg.node_of(s)
+                if any(sn in cfg.reachable(d, avoid=lambda z, dd=dnodes: z in dd) for d in dnodes) and an in cfg.reachable(sn, avoid=lambda z, dd=dnodes: z in dd):
+                    out.append((s, A.unparse(s.targets[0].slice), s.value))
+        return out
+
+    def arc_kind(self, actor: ast.Call) -> Optional[str]:
+        """'exit' / 'header': from the membership test that guards the assignment block"""
+        for t, pol in _guard_conditions(self.fn.node, actor):
+            if not pol:
+                continue
+            seq = None
+            try:
+                tt = ast.parse(t, mode="eval").body
+            except SyntaxError:
+                continue
+            conj = tt.values if isinstance(tt, ast.BoolOp) else [tt]
+            for cj in conj:
+                if isinstance(cj, ast.Compare) and len(cj.ops) == 1 and isinstance(cj.ops[0], ast.In):
+                    seq = A.unparse(cj.comparators[0])
+                    if seq in self.exit_seq():
+                        return "exit"
+                    if "header" in seq:
+                        return "header"
+        return None
+
+    def exit_seq(self) -> Set[str]:
+        """names of the sequence the exit table enumerates"""
+        out = set()
+        for d, v in _defs_values(self.ctx, self.fn, self.exitb, self.exit_tbl):
+            if v is not None:
+                for n in ast.walk(v):
+                    if isinstance(n, ast.Call) and isinstance(n.func, ast.Name) and n.func.id == "enumerate" and n.args:
+                        out.add(A.unparse(n.args[0]))
+        return out
+
+
+def _rl(e: ast.AST) -> Optional[Tuple[str, str]]:
+    """(table text, value text) when e is reverse_lookup(T, x)"""
+    if isinstance(e, ast.Call) and (A.dotted(e.func) or "").split(".")[-1] == "reverse_lookup" and len(e.args) == 2:
+        return A.unparse(e.args[0]), A.unparse(e.args[1])
+    return None
+
+
+@rule("CTRL-2", 4, "every control value is looked up in (or shares its key with) the table of the block that will read that variable")
+def ctrl2(ctx) -> List[Ob]:
+    out: List[Ob] = []
+    g = Gadget(ctx)
+    fn = g.fn
+    owners_var: Dict[str, Set[str]] = {g.latch_var: {"latch"}, g.exit_var: {"exit-branch"}}
+    for hv in g.head_vars:
+        owners_var.setdefault(hv, set()).add("head")
+    owners_tbl: Dict[str, Set[str]] = {g.latch_tbl: {"latch"}, g.exit_tbl: {"exit-branch"}}
+    for ht in g.head_tbls:
+        owners_tbl.setdefault(ht, set()).add("head")
+    seen = set()
+    for actor in g.assigns:
+        for s, V, e in g.stores_for(actor):
+            if id(s) in seen:
+                continue
+            seen.add(id(s))
+            key = " ".join(A.unparse(s).split())
+            where = ctx.where(fn, s)
+            rl = _rl(e)
+            if V not in owners_var:
+                out.append(bad("CTRL-2", fn.qualname, key, where, f"'{V}' is assigned but no branching block built or looked up here reads it"))
+                continue
+            if rl is None:
+                out.append(bad("CTRL-2", fn.qualname, key, where, f"the value of {V} is not taken from a value table by reverse lookup ({A.unparse(e)[:40]})"))
+                continue
+            T, _x = rl
+            ov, ot = owners_var[V], owners_tbl.get(T, set())
+            if ov & ot:
+                out.append(ok("CTRL-2", fn.qualname, key, where, f"{V} is read by the {'/'.join(sorted(ov))} and its value is looked up in that block's table {T}"))
+            else:
+                out.append(bad("CTRL-2", fn.qualname, key, where, f"{V} is read by the {'/'.join(sorted(ov))} but its value is looked up in {T}, the table of the {'/'.join(sorted(ot)) or 'no block'}: the value is out of range or selects the wrong target"))
+    # insert_block_and_control_blocks: shared counter
+    f2 = _ibcb(ctx)
+    heads = _ctors(ctx, f2, "SyntheticBranch")
+    if not heads:
+        raise AnalysisError("no branching block constructed in insert_block_and_control_blocks")
+    hc = heads[0][0]
+    hv, ht = A.unparse(kw(hc, "variable")), A.unparse(kw(hc, "branch_value_table"))
+    for s in A.walk_no_nested(f2.node):
+        if isinstance(s, ast.Assign) and len(s.targets) == 1 and isinstance(s.targets[0], ast.Subscript) and "assign" in A.unparse(s.targets[0].value):
+            key = A.alpha_key(s)
+            where = ctx.where(f2, s)
+            V = A.unparse(s.targets[0].slice)
+            val = A.unparse(s.value)
+            tstores = [t for t in A.walk_no_nested(f2.node) if isinstance(t, ast.Assign) and isinstance(t.targets[0], ast.Subscript) and A.unparse(t.targets[0].value) == ht]
+            if V != hv:
+                out.append(bad("CTRL-2", f2.qualname, key, where, f"assigns {V}, but the head built here reads {hv}"))
+            elif any(A.unparse(t.targets[0].slice) == val and _same_iteration(ctx, f2, s, t) for t in tstores):
+                out.append(ok("CTRL-2", f2.qualname, key, where, f"value {val} is the key under which the head's table {ht} stores the arc's target in the same iteration"))
+            else:
+                out.append(bad("CTRL-2", f2.qualname, key, where, f"the value assigned to {V} ({val}) is not the key stored into the head's table {ht} in the same iteration"))
+    return out
+
+
+def _same_iteration(ctx, fn, a: ast.AST, b: ast.AST) -> bool:
+    cfg = ctx.cfg(fn)
+    na, nb = cfg.node_of(a), cfg.node_of(b)
+    la, lb = cfg.loops_containing(na), cfg.loops_containing(nb)
+    return bool(la) and la[:1] == lb[:1]
+
+
+@rule("CTRL-3", 3, "every assignment block that leads to a branching block assigns that block's variable on every path")
+def ctrl3(ctx) -> List[Ob]:
+    out: List[Ob] = []
+    g = Gadget(ctx)
+    fn = g.fn
+    cfg = ctx.cfg(fn)
+    for actor in g.assigns:
+        key = "assignment block " + (g.arc_kind(actor) or "?") + "-arc"
+        where = ctx.where(fn, actor)
+        jt = kw(actor, "_jump_targets")
+        tgt = A.unparse(jt.elts[0]) if isinstance(jt, ast.Tuple) and len(jt.elts) == 1 else None
+        if tgt != g.latch_name:
+            out.append(bad("CTRL-3", fn.qualname, key, where, f"assignment block jumps to {tgt}, not to the exiting latch {g.latch_name}"))
+            continue
+        va = kw(actor, "variable_assignment")
+        dnodes = [d for d in cfg.reaching_defs(actor, va.id) if d.stmt is not None] if isinstance(va, ast.Name) else []
+        an = cfg.node_of(actor)
+        stores = g.stores_for(actor)
+
+        def assigned_on_all_paths(V: str) -> bool:
+            sn = {cfg.node_of(s) for s, v, _e in stores if v == V}
+            return bool(dnodes) and all(an not in cfg.reachable(d, avoid=lambda z: z in sn) for d in dnodes)
+
+        def assigned_under(V: str, cond: Optional[str]) -> bool:
+            for s, v, _e in stores:
+                if v != V:
+                    continue
+                gs = _guard_conditions(fn.node, s)
+                mine = _guard_conditions(fn.node, actor)
+                extra = [x for x in gs if x not in mine]
+                if not extra:
+                    return True
+                if cond is not None and all(pol and cond in _disjuncts(t) for t, pol in extra):
+                    return True
+            return False
+
+        probs = []
+        if not assigned_on_all_paths(g.latch_var):
+            probs.append(f"the latch's variable {g.latch_var} is not assigned on every path to the block")
+        kind = g.arc_kind(actor)
+        if kind == "exit":
+            if not assigned_under(g.exit_var, g.exit_cond):
+                probs.append(f"the exit branch's variable {g.exit_var} is not assigned whenever the exit branch exists ({g.exit_cond})")
+        elif kind == "header":
+            if g.head_vars and not any(assigned_under(hv, g.head_cond) for hv in g.head_vars | {g.exit_var}):
+                probs.append(f"the unified head's variable is not assigned whenever the head is a branching block ({g.head_cond})")
+        else:
+            out.append(unresolved("CTRL-3", fn.qualname, key, where, "cannot tell which kind of arc this assignment block serves"))
+            continue
+        if probs:
+            out.append(bad("CTRL-3", fn.qualname, key, where, "; ".join(probs)))
+        else:
+            out.append(ok("CTRL-3", fn.qualname, key, where, f"{kind}-arc: latch variable assigned on every path; second-level variable assigned under the condition that creates its reader"))
+    # head unification
+    f2 = _ibcb(ctx)
+    hc = _ctors(ctx, f2, "SyntheticBranch")[0][0]
+    hv, hn = A.unparse(kw(hc, "variable")), A.unparse(kw(hc, "name"))
+    for actor, _n in _ctors(ctx, f2, "SyntheticAssignment"):
+        key = "assignment block entry-arc"
+        where = ctx.where(f2, actor)
+        jt = kw(actor, "_jump_targets")
+        tgt = A.unparse(jt.elts[0]) if isinstance(jt, ast.Tuple) and len(jt.elts) == 1 else None
+        va = kw(actor, "variable_assignment")
+        cfg2 = ctx.cfg(f2)
+        stores = [s for s in A.walk_no_nested(f2.node) if isinstance(s, ast.Assign) and isinstance(s.targets[0], ast.Subscript) and isinstance(va, ast.Name) and A.unparse(s.targets[0].value) == va.id and A.unparse(s.targets[0].slice) == hv]
+        dn = [d for d in cfg2.reaching_defs(actor, va.id) if d.stmt is not None] if isinstance(va, ast.Name) else []
+        sn = {cfg2.node_of(s) for s in stores}
+        okk = tgt == hn and dn and all(cfg2.node_of(actor) not in cfg2.reachable(d, avoid=lambda z: z in sn) for d in dn)
+        if okk:
+            out.append(ok("CTRL-3", f2.qualname, key, where, f"jumps to the new head {hn} and assigns its variable {hv} on every path"))
+        else:
+            out.append(bad("CTRL-3", f2.qualname, key, where, f"assignment block on an entry arc does not (always) assign the head's variable {hv} or does not jump to the head {hn} (target {tgt})"))
+    return out
+
+
+def _disjuncts(t: str) -> Set[str]:
+    try:
+        e = ast.parse(t, mode="eval").body
+    except SyntaxError:
+        return {t}
+    if isinstance(e, ast.BoolOp) and isinstance(e.op, ast.Or):
+        return {A.unparse(v) for v in e.values}
+    return {A.unparse(e)}
+
+
+@rule("CTRL-4", 1, "each rerouted arc gets its own control value: the shared counter advances on every path after both uses")
+def ctrl4(ctx) -> List[Ob]:
+    out: List[Ob] = []
+    f2 = _ibcb(ctx)
+    cfg = ctx.cfg(f2)
+    hc = _ctors(ctx, f2, "SyntheticBranch")[0][0]
+    ht = A.unparse(kw(hc, "branch_value_table"))
+    tstores = [t for t in A.walk_no_nested(f2.node) if isinstance(t, ast.Assign) and isinstance(t.targets[0], ast.Subscript) and A.unparse(t.targets[0].value) == ht]
+    if not tstores:
+        raise AnalysisError("no store into the head's value table found")
+    for t in tstores:
+        key = A.alpha_key(t)
+        where = ctx.where(f2, t)
+        k = t.targets[0].slice
+        if not isinstance(k, ast.Name):
+            out.append(unresolved("CTRL-4", f2.qualname, key, where, "table key is not a plain counter"))
+            continue
+        tn = cfg.node_of(t)
+        loops = cfg.loops_containing(tn)
+        if not loops:
+            out.append(bad("CTRL-4", f2.qualname, key, where, "the table is filled outside a loop"))
+            continue
+        hdr = loops[0]
+
+        def adv(z) -> bool:
+            s = z.stmt
+            if isinstance(s, ast.AugAssign) and isinstance(s.target, ast.Name) and s.target.id == k.id and isinstance(s.op, ast.Add):
+                return True
+            if isinstance(s, ast.Assign) and any(isinstance(x, ast.Name) and x.id == k.id for x in s.targets) and isinstance(s.value, ast.BinOp) and isinstance(s.value.op, ast.Add) and k.id in A.names_in(s.value):
+                return True
+            return False
+
+        if hdr in cfg.reachable(tn, avoid=adv):
+            out.append(bad("CTRL-4", f2.qualname, key, where, f"the counter {k.id} is not advanced on every path of the iteration: two arcs get the same control value and one table entry overwrites the other"))
+        else:
+            # the counter must not be reset inside the loops
+            resets = [z for z in cfg.nodes if z.stmt is not None and isinstance(z.stmt, ast.Assign) and any(isinstance(x, ast.Name) and x.id == k.id for x in z.stmt.targets) and not adv(z) and cfg.loops_containing(z)]
+            if resets:
+                out.append(bad("CTRL-4", f2.qualname, key, ctx.where(f2, resets[0].stmt), f"the counter {k.id} is reset inside the loop: values repeat across predecessors"))
+            else:
+                out.append(ok("CTRL-4", f2.qualname, key, where, f"{k.id} advanced on every path back to the loop header and never reset inside the loops"))
+    return out
+
+
+@rule("CTRL-5", 2, "loop restructuring leaves exactly one declared back edge, from the single latch to the loop head, on every path, before the loop region is extracted")
+def ctrl5(ctx) -> List[Ob]:
+    out: List[Ob] = []
+    prog = ctx.prog
+    rl = prog.find_function("restructure_loop", "transformations")
+    if rl is None:
+        raise AnalysisError("restructure_loop not found")
+    h = _helper(ctx)
+    cfg = ctx.cfg(rl)
+    ex = [c for c in A.walk_no_nested(rl.node) if isinstance(c, ast.Call) and (A.dotted(c.func) or "") == "extract_region"]
+    hp = [c for c in A.walk_no_nested(rl.node) if isinstance(c, ast.Call) and (A.dotted(c.func) or "") == h.name]
+    if not ex:
+        raise AnalysisError("restructure_loop does not call extract_region")
+    for c in ex:
+        key = A.alpha_key(c)
+        where = ctx.where(rl, c)
+        loop_arg = A.unparse(c.args[1]) if len(c.args) > 1 else "?"
+        kind = c.args[2] if len(c.args) > 2 else kw(c, "region_kind")
+        doms = [x for x in hp if len(x.args) > 1 and A.unparse(x.args[1]) == loop_arg and cfg.dominates(cfg.node_of(x), cfg.node_of(c)) and cfg.loops_containing(cfg.node_of(x))[:1] == cfg.loops_containing(cfg.node_of(c))[:1]]
+        if not (isinstance(kind, ast.Constant) and kind.value == "loop"):
+            out.append(bad("CTRL-5", rl.qualname, key, where, f"strongly connected components are extracted as kind {A.unparse(kind) if kind is not None else '?'}, not 'loop'"))
+        elif doms:
+            out.append(ok("CTRL-5", rl.qualname, key, where, f"extraction of {loop_arg} dominated by {h.name}(.., {loop_arg}) in the same iteration"))
+        else:
+            out.append(bad("CTRL-5", rl.qualname, key, where, f"the loop {loop_arg} is extracted as a region without having been restructured ({h.name}) first: no single latch / declared back edge"))
+    # inside the helper: every path to the exit declares the back edge
+    hcfg = ctx.cfg(h)
+    g = Gadget(ctx)
+    head_defs = {g.latch_back}
+
+    def declares(z) -> bool:
+        if z.stmt is None:
+            return False
+        for k in z.walk():
+            if isinstance(k, ast.Call) and isinstance(k.func, ast.Attribute) and k.func.attr == "add_block" and k.args:
+                a = k.args[0]
+                if isinstance(a, ast.Call) and isinstance(a.func, ast.Attribute) and a.func.attr == "declare_backedge" and a.args and A.unparse(a.args[0]) in head_defs:
+                    return True
+                if isinstance(a, ast.Name):
+                    for d in hcfg.reaching_defs(k, a.id):
+                        ap = _assign_parts(d.stmt) if d.stmt is not None else None
+                        if ap and ap[1] is g.latch:
+                            return True
+                        if ap and isinstance(ap[1], ast.Call) and isinstance(ap[1].func, ast.Attribute) and ap[1].func.attr == "declare_backedge":
+                            return True
+        return False
+
+    key = "every path declares the back edge"
+    where = ctx.where(h)
+    if hcfg.exit in hcfg.reachable(hcfg.entry, avoid=declares):
+        out.append(bad("CTRL-5", h.qualname, key, where, "there is a path through loop restructuring that neither declares the back edge on the single latch nor adds an exiting latch: the loop region keeps an undeclared cycle"))
+    else:
+        out.append(ok("CTRL-5", h.qualname, key, where, "every path to the exit stores a block with the declared back edge (early exit: declare_backedge; otherwise the synthetic exiting latch)"))
+    # the latch itself
+    key = "exiting latch: back edge to the loop head"
+    where = ctx.where(h, g.latch)
+    if g.latch_back is None:
+        out.append(bad("CTRL-5", h.qualname, key, where, f"the exiting latch is built with backedges={A.unparse(kw(g.latch, 'backedges'))}: not exactly one declared back edge"))
+    elif g.latch_back not in g.latch_targets:
+        out.append(bad("CTRL-5", h.qualname, key, where, f"the latch declares a back edge to {g.latch_back}, which is not among its jump targets {g.latch_targets}"))
+    else:
+        # the back edge target is the loop head: the name the early exit declares and the head the header-arcs route to
+        early = [k for k in method_calls(h.node, "declare_backedge") if k.args]
+        heads = {A.unparse(k.args[0]) for k in early} | {g.latch_back}
+        if len(heads) == 1:
+            out.append(ok("CTRL-5", h.qualname, key, where, f"backedges=({g.latch_back},) and {g.latch_back} in _jump_targets; same head definition as the early exit"))
+        else:
+            out.append(bad("CTRL-5", h.qualname, key, where, f"the latch's back edge goes to {g.latch_back} but the early exit declares {sorted(heads - {g.latch_back})}"))
+    return out
+
+
+MUTATORS = ("insert_block_and_control_blocks", "join_tails_and_exits", "insert_SyntheticFill", "insert_SyntheticTail", "insert_SyntheticExit", "insert_SyntheticReturn", "insert_block", "join_returns")
+
+
+@rule("CTRL-6", 4, "branch regions are extracted, head first then branches then tail, from block sets recomputed after the last change of the graph")
+def ctrl6(ctx) -> List[Ob]:
+    out: List[Ob] = []
+    rb = ctx.prog.find_function("restructure_branch", "transformations")
+    if rb is None:
+        raise AnalysisError("restructure_branch not found")
+    cfg = ctx.cfg(rb)
+    ex = [c for c in A.walk_no_nested(rb.node) if isinstance(c, ast.Call) and (A.dotted(c.func) or "") == "extract_region"]
+    if len(ex) < 3:
+        raise AnalysisError("restructure_branch: fewer than three extract_region calls")
+
+    def is_mut(z) -> bool:
+        return any(isinstance(k, ast.Call) and isinstance(k.func, ast.Attribute) and k.func.attr in MUTATORS for k in z.walk())
+
+    order = []
+    for c in ex:
+        kind = c.args[2].value if len(c.args) > 2 and isinstance(c.args[2], ast.Constant) else None
+        order.append((kind, c))
+        key = f"extract_region(.., {A.alpha_key(c.args[1])}, '{kind}')"
+        where = ctx.where(rb, c)
+        arg = c.args[1]
+        # trace the argument to the definition of the set it came from
+        roots = _root_defs(ctx, rb, cfg, arg, c)
+        if not roots:
+            out.append(unresolved("CTRL-6", rb.qualname, key, where, "cannot trace the block set to its computation"))
+            continue
+        stale = []
+        cn = cfg.node_of(c)
+        for d in roots:
+            between = [z for z in cfg.reachable(d) if is_mut(z) and cn in cfg.reachable(z)]
+            if between:
+                stale.append(f"computed at line {d.lineno}, graph changed at line {between[0].lineno}")
+        if stale:
+            out.append(bad("CTRL-6", rb.qualname, key, where, f"the block set of the {kind} region is stale: {stale[0]} before the extraction", stale))
+        else:
+            out.append(ok("CTRL-6", rb.qualname, key, where, f"set computed (line(s) {sorted(d.lineno for d in roots)}) after the last graph mutation"))
+    kinds = [k for k, _ in order]
+    key = "extraction order head, branch, tail"
+    where = ctx.where(rb, ex[0])
+    want = ["head", "branch", "tail"]
+    nodes_ = {k: cfg.node_of(c) for k, c in order}
+    dom_ok = (
+        set(kinds) == set(want)
+        and all(cfg.dominates(nodes_["head"], nodes_[k]) for k in ("branch", "tail"))
+        and nodes_["branch"] not in cfg.reachable(nodes_["tail"])
+        and nodes_["head"] not in cfg.reachable(nodes_["branch"])
+    )
+    if kinds == want and dom_ok:
+        out.append(ok("CTRL-6", rb.qualname, key, where, "head, then each branch, then tail"))
+    else:
+        out.append(bad("CTRL-6", rb.qualname, key, where, f"regions are extracted in the order {kinds}; entries of later regions are renamed only if the head is wrapped first and the tail last"))
+    return out
+
+
+def _root_defs(ctx, fn, cfg, arg: ast.AST, use: ast.AST, depth: int = 0) -> list:
+    if not isinstance(arg, ast.Name) or depth > 4:
+        return []
+    out = []
+    for d in cfg.reaching_defs(use, arg.id):
+        if d.stmt is None:
+            continue
+        if d.kind == "for":
+            out += _root_defs(ctx, fn, cfg, d.stmt.iter, d.stmt, depth + 1)
+            continue
+        ap = _assign_parts(d.stmt)
+        if ap is None:
+            continue
+        v = ap[1]
+        if isinstance(v, ast.Name):
+            out += _root_defs(ctx, fn, cfg, v, d.stmt, depth + 1)
+        elif isinstance(v, ast.Call):
+            out.append(d)
+    return out
+
+
+@rule("CTRL-7", 2, "control value 0 of the latch means 'continue': the table's entry 0 is the back-edge target and the generated loop flag is 'not variable'")
+def ctrl7(ctx) -> List[Ob]:
+    out: List[Ob] = []
+    g = Gadget(ctx)
+    fn = g.fn
+    key = "latch table entry 0"
+    where = ctx.where(fn, g.latch)
+    firsts = set()
+    for d, v in _defs_values(ctx, fn, g.latch, g.latch_tbl):
+        if v is None:
+            continue
+        for n in ast.walk(v):
+            if isinstance(n, ast.Call) and isinstance(n.func, ast.Name) and n.func.id == "enumerate" and n.args and isinstance(n.args[0], ast.Tuple) and n.args[0].elts:
+                firsts.add(A.unparse(n.args[0].elts[0]))
+                if len(n.args) > 1 or n.keywords:
+                    firsts.add("<enumerate start != 0>")
+    if not firsts:
+        out.append(unresolved("CTRL-7", fn.qualname, key, where, "cannot read how the latch's value table is built"))
+    elif firsts == {g.latch_back}:
+        out.append(ok("CTRL-7", fn.qualname, key, where, f"value 0 -> {g.latch_back}, the declared back-edge target, under every definition of the table"))
+    else:
+        out.append(bad("CTRL-7", fn.qualname, key, where, f"value 0 of the latch's table maps to {sorted(firsts)} but the back edge goes to {g.latch_back}: the generated 'loop_cont = not var' continues when it should exit"))
+    # consumer
+    from .disp import _codegen
+    from .common import find_class_chains
+
+    cg = _codegen(ctx)
+    params = [p.arg for p in cg.params if p.arg != "self"]
+    chains = find_class_chains(cg.node, params[0])
+    arm = None
+    for a in chains[0][1]:
+        if a.test is not None and "SyntheticExitingLatch" in A.unparse(a.test):
+            arm = a
+    key = "generated loop flag"
+    if arm is None:
+        out.append(unresolved("CTRL-7", cg.qualname, key, ctx.where(cg), "no arm for SyntheticExitingLatch in the code generator"))
+        return out
+    nots = [n for n in A.walk_no_nested(ast.Module(arm.body, [])) if isinstance(n, ast.Call) and (A.dotted(n.func) or "") == "ast.UnaryOp" and n.args and isinstance(n.args[0], ast.Call) and (A.dotted(n.args[0].func) or "") == "ast.Not"]
+    uses_var = any(".variable" in A.unparse(n) for n in nots)
+    if nots and uses_var:
+        out.append(ok("CTRL-7", cg.qualname, key, ctx.where(cg, arm.node), "loop flag = not <latch variable>: value 0 continues"))
+    else:
+        out.append(bad("CTRL-7", cg.qualname, key, ctx.where(cg, arm.node), "the loop flag is not the negation of the latch's variable: polarity of the generated while loop is inverted or unrelated"))
+    return out
+
+
+@rule("CTRL-8", 2, "header unification is given the entries and headers of one and the same computation")
+def ctrl8(ctx) -> List[Ob]:
+    out: List[Ob] = []
+    target = _ibcb(ctx)
+    for site in ctx.cg.call_sites_of(target):
+        fn, c = site.caller, site.node
+        cfg = ctx.cfg(fn)
+        key = A.alpha_key(c)
+        where = ctx.where(fn, c)
+        if len(c.args) < 3:
+            out.append(unresolved("CTRL-8", fn.qualname, key, where, "call with keyword arguments not understood"))
+            continue
+        pred, succ = c.args[1], c.args[2]
+        info = {}
+        for nm, role in ((pred, "predecessors"), (succ, "successors")):
+            if not isinstance(nm, ast.Name):
+                continue
+            for d in cfg.reaching_defs(c, nm.id):
+                if d.stmt is None:
+                    continue
+                ap = _assign_parts(d.stmt)
+                if ap and isinstance(ap[0][0], ast.Tuple) and isinstance(ap[1], ast.Call) and isinstance(ap[1].func, ast.Attribute) and ap[1].func.attr == "find_headers_and_entries":
+                    idx = [A.unparse(e) for e in ap[0][0].elts].index(nm.id)
+                    info.setdefault(role, []).append((id(d), idx))
+        p, s = info.get("predecessors", []), info.get("successors", [])
+        if len(p) == 1 and len(s) == 1 and p[0][0] == s[0][0] and p[0][1] == 1 and s[0][1] == 0:
+            out.append(ok("CTRL-8", fn.qualname, key, where, "predecessors = entries and successors = headers of the same find_headers_and_entries result"))
+        else:
+            out.append(bad("CTRL-8", fn.qualname, key, where, "the predecessors / successors handed to header unification are not the (entries, headers) pair of one find_headers_and_entries call: some header gets no table entry or some arc no assignment"))
+    return out
+
+
+@rule("CTRL-9", 3, "on the gadget template every rerouted arc is driven back to its original target: latch value -> first hop, second variable -> original target")
+def ctrl9(ctx) -> List[Ob]:
+    out: List[Ob] = []
+    g = Gadget(ctx)
+    fn = g.fn
+    for actor in g.assigns:
+        kind = g.arc_kind(actor)
+        key = f"{kind or '?'}-arc routing"
+        where = ctx.where(fn, actor)
+        if kind is None:
+            out.append(unresolved("CTRL-9", fn.qualname, key, where, "cannot classify the arc"))
+            continue
+        stores = {v: e for _s, v, e in g.stores_for(actor)}
+        # the arc variable: the loop variable tested by the guard and replaced in the list
+        arc = None
+        for t, pol in _guard_conditions(fn.node, actor):
+            tt = ast.parse(t, mode="eval").body
+            conj = tt.values if isinstance(tt, ast.BoolOp) else [tt]
+            for cj in conj:
+                if isinstance(cj, ast.Compare) and isinstance(cj.ops[0], ast.In) and isinstance(cj.left, ast.Name):
+                    arc = cj.left.id
+                    break
+            if arc:
+                break
+        probs = []
+        first_hop = g.latch_exit if kind == "exit" else g.latch_back
+        rl1 = _rl(stores.get(g.latch_var)) if stores.get(g.latch_var) is not None else None
+        if rl1 is None:
+            probs.append(f"{g.latch_var} is not set by a reverse lookup")
+        else:
+            if rl1[0] != g.latch_tbl:
+                probs.append(f"{g.latch_var} is looked up in {rl1[0]}, not in the latch's table {g.latch_tbl}")
+            if rl1[1] != first_hop:
+                probs.append(f"{g.latch_var} selects {rl1[1]}, but this {kind}-arc must leave the latch towards {first_hop}")
+        second = stores.get(g.exit_var)
+        for hv in g.head_vars:
+            second = second if second is not None else stores.get(hv)
+        rl2 = _rl(second) if second is not None else None
+        if rl2 is None:
+            probs.append("the second-level variable is not set by a reverse lookup")
+        else:
+            want_tbl = {g.exit_tbl} if kind == "exit" else set(g.head_tbls)
+            if rl2[0] not in want_tbl:
+                probs.append(f"second-level value looked up in {rl2[0]}, expected {sorted(want_tbl)} (the table of the block the latch hands over to)")
+            if rl2[1] != arc:
+                probs.append(f"second-level value selects {rl2[1]}, not the arc's original target {arc}")
+        # the list edit replaces the arc's own position with this block
+        nm = A.unparse(kw(actor, "name"))
+        edits = [s for s in A.walk_no_nested(fn.node) if isinstance(s, ast.Assign) and isinstance(s.targets[0], ast.Subscript) and A.unparse(s.value) == nm and "index" in A.unparse(s.targets[0].slice)]
+        mine = _guard_conditions(fn.node, actor)
+        edits = [s for s in edits if _guard_conditions(fn.node, s) == mine]
+        if not edits:
+            probs.append(f"the assignment block {nm} is never put in the place of the arc's target")
+        elif not all(isinstance(s.targets[0].slice, ast.Call) and s.targets[0].slice.args and A.unparse(s.targets[0].slice.args[0]) == arc for s in edits):
+            probs.append(f"the assignment block replaces another position than the one holding {arc}")
+        if probs:
+            out.append(bad("CTRL-9", fn.qualname, key, where, f"{kind}-arc is not driven back to its original target: " + "; ".join(probs), probs))
+        else:
+            out.append(ok("CTRL-9", fn.qualname, key, where, f"{kind}-arc: {g.latch_var} -> {first_hop} via {g.latch_tbl}; second level -> {arc}; block placed at index of {arc}"))
+    # head unification arcs
+    f2 = _ibcb(ctx)
+    hc = _ctors(ctx, f2, "SyntheticBranch")[0][0]
+    ht = A.unparse(kw(hc, "branch_value_table"))
+    for actor, _n in _ctors(ctx, f2, "SyntheticAssignment"):
+        key = "entry-arc routing"
+        where = ctx.where(f2, actor)
+        nm = A.unparse(kw(actor, "name"))
+        tst = [t for t in A.walk_no_nested(f2.node) if isinstance(t, ast.Assign) and isinstance(t.targets[0], ast.Subscript) and A.unparse(t.targets[0].value) == ht]
+        edits = [s for s in A.walk_no_nested(f2.node) if isinstance(s, ast.Assign) and isinstance(s.targets[0], ast.Subscript) and A.unparse(s.value) == nm]
+        probs = []
+        if not tst or not edits:
+            probs.append("table store or list edit missing")
+        else:
+            tv = A.unparse(tst[0].value)
+            sl = edits[0].targets[0].slice
+            idx_of = A.unparse(sl.args[0]) if isinstance(sl, ast.Call) and sl.args else A.unparse(sl)
+            if tv != idx_of:
+                probs.append(f"the head's table maps the arc's value to {tv} but the assignment block replaces the successor {idx_of}")
+            if not (_same_iteration(ctx, f2, tst[0], edits[0])):
+                probs.append("table store and list edit are not in the same iteration")
+        if probs:
+            out.append(bad("CTRL-9", f2.qualname, key, where, "entry arc is not routed back to its original header: " + "; ".join(probs)))
+        else:
+            out.append(ok("CTRL-9", f2.qualname, key, where, "the value assigned on the arc maps, in the head's table, to the successor the assignment block replaced"))
+    return out
